@@ -85,11 +85,12 @@ def profiles_for(pid, tier):
     three = dict(base, apps=["a", "b", "a2"], sides=["s1", "s2", "s3", "s4"])
     # identifiers that differ only by letter case, by Unicode normalisation form (NFC / NFD, Angstrom / A-ring), by width or by
     # surrounding blanks: the server must keep every one of them apart; scalars that look like numbers, hex, JSON, SQL wildcards
-    look = dict(base, apps=["caf\u00e9", "cafe\u0301", "App", "app"], sides=["a1b2", "A1B2", "s\u00e9", "se\u0301", "a1b2 "],
-                names=["1", "\uff11", "ab", "AB", "\u00e9", "e\u0301", "1 "], client_mailboxes=["mb", "MB", "m\u00e9", "me\u0301"],
-                odd_scalars=True)
+    look = dict(base, apps=["caf\u00e9", "cafe\u0301", "App", "app", "50%off"], sides=["a1b2", "A1B2", "s\u00e9", "se\u0301", "a1b2 "],
+                names=["1", "\uff11", "ab", "AB", "\u00e9", "e\u0301", "1 ", ""], client_mailboxes=["mb", "MB", "m\u00e9", "me\u0301", ""],
+                odd_scalars=True, twins=True)
     P = {
-        "C01": [("bulk-expired", dict(_special="bulk", mode="expired"), N(1, 4)),
+        "C01": [("backstep", dict(three, backstep=True, _impl_only=True, w_add=16, w_open=12, w_restart=2), N(40, 300)),
+                ("bulk-expired", dict(_special="bulk", mode="expired"), N(1, 4)),
                 ("lookalike", dict(look, w_add=16, w_open=12, w_sweep=2, w_restart=2), N(80, 600)),
                 ("general", dict(three, w_add=16, w_open=12, w_sweep=3, w_restart=2), N(160, 1500)),
                 ("reuse", dict(base, apps=["a", "b"], client_mailboxes=["m1"], names=["1"], w_add=14, w_open=12, w_close=12,
@@ -97,7 +98,8 @@ def profiles_for(pid, tier):
                 ("ints", dict(base, int_ids=True, w_add=16, w_open=12), N(40, 300)),
                 ("shared-ids", dict(base, apps=["a", "b"], shared_mailbox_ids=True, client_mailboxes=["m1", "m2"], w_add=16,
                                     w_open=14, w_claim=2, w_allocate=0), N(80, 600))],
-        "C02": [("bulk-subscribed", dict(_special="bulk", mode="subscribed"), N(1, 4)),
+        "C02": [("bulk-apps", dict(_special="bulk-apps"), N(1, 3)),
+                ("bulk-subscribed", dict(_special="bulk", mode="subscribed"), N(1, 4)),
                 ("lookalike", dict(look, w_add=18, w_open=12, w_reconnect=6, w_restart=1), N(80, 600)),
                 ("general", dict(three, w_add=18, w_open=12, w_reconnect=8, w_sweep=4, w_restart=2), N(160, 1500)),
                 ("ints", dict(base, int_ids=True, w_add=18, w_open=12, w_reconnect=6), N(60, 400)),
@@ -106,7 +108,8 @@ def profiles_for(pid, tier):
                                        w_bigjump=0), N(160, 1500)),
                 ("shared-ids", dict(base, apps=["a", "b"], shared_mailbox_ids=True, client_mailboxes=["m1", "m2"], w_add=16,
                                     w_open=14, w_claim=2, w_allocate=0), N(80, 600))],
-        "C03": [("lookalike", dict(look, w_claim=16, w_release=8, w_close=6, w_restart=2), N(80, 600)),
+        "C03": [("claim-sweep-boundary", dict(_special="claim-sweep-boundary"), N(60, 400)),
+                ("lookalike", dict(look, w_claim=16, w_release=8, w_close=6, w_restart=2), N(80, 600)),
                 ("general", dict(three, w_claim=16, w_release=8, w_close=8, w_restart=2, w_sweep=3, names=["1", "2", "7"]), N(200, 2000)),
                 ("late-claim", dict(_special="late-claim"), N(30, 200)),
                 # one name, two or three sides, frequent restarts: whatever a command left uncommitted is lost at the
@@ -118,10 +121,12 @@ def profiles_for(pid, tier):
                                  w_sweep=2), N(160, 1500)),
                 ("fill", dict(_special="fill"), N(24, 120)),
                 ("alloc-paired", dict(_special="alloc-paired"), N(40, 300))],
-        "C05": [("lookalike", dict(look, apps=["App"], names=["ab", "AB"], client_mailboxes=["mb"], w_claim=12, w_open=12, w_close=6, w_add=10, w_reconnect=8), N(80, 600)),
+        "C05": [("backstep", dict(base, backstep=True, _impl_only=True, apps=["a"], sides=["s1", "s2", "s3", "s4"], names=["1", "2"], client_mailboxes=["m1"], w_claim=12, w_open=12, w_close=8, w_release=6, w_add=10, w_reconnect=10), N(80, 600)),
+                ("lookalike", dict(look, apps=["App"], names=["ab", "AB"], client_mailboxes=["mb"], w_claim=12, w_open=12, w_close=6, w_add=10, w_reconnect=8), N(80, 600)),
                 ("third", dict(base, apps=["a"], sides=["s1", "s2", "s3", "s4"], names=["1", "2"], client_mailboxes=["m1"],
                                w_claim=12, w_open=12, w_close=8, w_release=6, w_add=10, w_reconnect=10, w_restart=1), N(220, 2000))],
-        "C06": [("lookalike", dict(look, w_sweep=3, w_restart=1, w_add=12, w_open=12), N(80, 600)),
+        "C06": [("bulk-apps", dict(_special="bulk-apps"), N(1, 3)),
+                ("lookalike", dict(look, w_sweep=3, w_restart=1, w_add=12, w_open=12), N(80, 600)),
                 ("two-apps", dict(base, apps=["a", "b"], sides=["s1", "s2"], names=["1", "2"], client_mailboxes=["m1"], w_sweep=3,
                                   w_restart=1), N(120, 1000)),
                 ("odd-strings", dict(base, apps=["a", "b", ""], sides=["s1", "", "s1 "], names=["1", ""], client_mailboxes=["m1", ""],
@@ -136,14 +141,16 @@ def profiles_for(pid, tier):
                 ("crowded-release", dict(base, apps=["a"], sides=["s1", "s2", "s3", "s4"], names=["1"], client_mailboxes=["m1"],
                                          w_claim=16, w_release=16, w_list=6, w_open=2, w_add=1, w_close=3, w_allocate=0,
                                          w_reconnect=8, w_connect=10), N(100, 800))],
-        "C08": [("lookalike", dict(look, w_close=14, w_open=12, w_claim=10, w_release=6, w_reconnect=8), N(80, 600)),
+        "C08": [("reclose-moods", dict(base, n_ops=30, usage=True, apps=["a"], sides=["s1", "s2"], names=["1"], client_mailboxes=["m1"], w_open=14, w_close=18, w_reconnect=10, w_connect=8, w_claim=3, w_release=2, w_allocate=0, w_add=3, w_sweep=1, w_malformed=0), N(60, 500)),
+                ("lookalike", dict(look, w_close=14, w_open=12, w_claim=10, w_release=6, w_reconnect=8), N(80, 600)),
                 ("general", dict(three, w_close=14, w_open=12, w_claim=10, w_release=6, w_reconnect=8, names=["1", "2"],
                                  sides=["s1", "s2"]), N(200, 2000)),
                 ("third", dict(base, apps=["a"], sides=["s1", "s2", "s3"], names=["1"], client_mailboxes=["m1"], w_close=14,
                                w_open=12, w_claim=10), N(60, 500)),
                 ("near-ids", dict(base, apps=["a", "b"], sides=["s1", "s2"], names=["1", "2", "12", "21"], p_near_ids=0.5, w_claim=12,
                                   w_open=14, w_close=14, w_release=6, w_add=8), N(100, 800))],
-        "C09": [("reader", dict(three, _mode={"reader": True}, w_sweep=4, w_restart=1, usage=True), N(80, 600)),
+        "C09": [("bigints", dict(base, big_ints=True, int_ids=True, _impl_only=True, _mode={"reader": True}, w_add=18, w_open=14, w_close=3, usage=True), N(40, 300)),
+                ("reader", dict(three, _mode={"reader": True}, w_sweep=4, w_restart=1, usage=True), N(80, 600)),
                 ("reader-nousage", dict(three, _mode={"reader": True}, w_sweep=4, usage=False), N(60, 400))],
         "C10": [("crash", dict(three, w_crash=6, w_sweep=3, quiesce=True), N(160, 1500)),
                 ("crash-usage", dict(base, w_crash=8, w_sweep=4, quiesce=True, usage=True), N(100, 1000)),
@@ -151,32 +158,40 @@ def profiles_for(pid, tier):
                 ("resend-small", dict(base, n_ops=24, apps=["a"], sides=["s1", "s2", "s3"], names=["1"], client_mailboxes=["m1"],
                                       w_claim=12, w_release=12, w_open=12, w_close=12, w_add=4, w_reconnect=8, w_allocate=0,
                                       w_sweep=1, w_restart=0, w_malformed=0), N(60, 500))],
-        "C11": [("restart", dict(three, w_restart=5, w_sweep=5, w_reconnect=8), N(160, 1500)),
+        "C11": [("backstep", dict(three, backstep=True, _impl_only=True, w_restart=5, w_sweep=4, w_reconnect=8), N(80, 600)),
+                ("restart", dict(three, w_restart=5, w_sweep=5, w_reconnect=8), N(160, 1500)),
                 ("small-world", dict(base, n_ops=60, apps=["a"], sides=["s1", "s2"], names=["1"], client_mailboxes=["m1"],
                                      w_open=14, w_close=12, w_add=8, w_reconnect=12, w_drop=6, w_claim=3, w_allocate=0,
                                      w_release=2, w_sweep=7, w_bigjump=5, w_restart=4), N(160, 1500))],
-        "C12": [("bulk-subscribed", dict(_special="bulk", mode="subscribed"), N(1, 4)),
+        "C12": [("bulk-apps", dict(_special="bulk-apps"), N(1, 3)),
+                ("claim-sweep-boundary", dict(_special="claim-sweep-boundary"), N(40, 300)),
+                ("lookalike", dict(look, w_sweep=6, w_bigjump=4, w_add=10, w_open=10), N(60, 400)),
+                ("bulk-subscribed", dict(_special="bulk", mode="subscribed"), N(1, 4)),
                 ("timer", dict(three, _mode={"timer": True}, timer=True, w_sweep=6, w_crash=0, w_reconnect=6, w_bigjump=2), N(160, 1500)),
                 ("direct", dict(three, w_sweep=8, w_bigjump=3), N(100, 800)),
                 # usage blurring configured, the history crosses a multiple of the blur interval: recorded times are
                 # coarse, expiry decisions must not be
                 ("timer-blur-boundary", dict(three, _mode={"timer": True}, timer=True, start="boundary", usage=True, w_sweep=8, w_drop=6,
                                              w_reconnect=8, w_crash=0, w_restart=1), N(80, 600))],
-        "C13": [("bulk-expired", dict(_special="bulk", mode="expired"), N(1, 4)),
+        "C13": [("lookalike", dict(look, w_sweep=4, quiesce=True), N(60, 400)),
+                ("bulk-expired", dict(_special="bulk", mode="expired"), N(1, 4)),
                 ("timer-quiesce", dict(three, _mode={"timer": True}, timer=True, w_sweep=5, quiesce=True, p_fault=0.25), N(160, 1500)),
                 ("crash-quiesce", dict(base, w_crash=4, w_sweep=4, quiesce=True, w_fault=2, usage=True), N(100, 800)),
                 ("odd-apps-shared-ids", dict(base, apps=["a", "", "ü"], sides=["s1", "s2"], names=["1", ""], shared_mailbox_ids=True,
                                              client_mailboxes=["m1"], w_open=12, w_add=12, w_sweep=4, quiesce=True), N(100, 800))],
-        "C14": [("dup", dict(three, w_reconnect=6, w_sweep=2), N(120, 1000)),
+        "C14": [("lookalike", dict(look, n_ops=30, w_claim=12, w_release=12, w_open=12, w_close=12, w_reconnect=8), N(60, 400)),
+                ("dup", dict(three, w_reconnect=6, w_sweep=2), N(120, 1000)),
                 # one nameplate, one mailbox, three sides: the situations in which a duplicate matters (a second
                 # side present, a crowded third, a nameplate still pointing at the mailbox, a mailbox already gone)
                 ("small-world", dict(base, n_ops=30, apps=["a"], sides=["s1", "s2", "s3"], names=["1"], client_mailboxes=["m1"],
                                      w_claim=14, w_release=14, w_open=10, w_close=10, w_add=3, w_reconnect=10, w_connect=6,
                                      w_allocate=0, w_list=2, w_sweep=1, w_restart=1, w_malformed=0), N(100, 800))],
-        "C15": [("usage", dict(three, usage=True, w_close=12, w_release=10, w_sweep=5, w_bigjump=3), N(200, 2000)),
+        "C15": [("reclose-moods", dict(base, n_ops=30, usage=True, apps=["a"], sides=["s1", "s2"], names=["1"], client_mailboxes=["m1"], w_open=14, w_close=18, w_reconnect=10, w_connect=8, w_claim=3, w_release=2, w_allocate=0, w_add=3, w_sweep=1, w_malformed=0), N(120, 1000)),
+                ("usage", dict(three, usage=True, w_close=12, w_release=10, w_sweep=5, w_bigjump=3), N(200, 2000)),
                 ("crowded-expiry", dict(base, usage=True, apps=["a"], sides=["s1", "s2", "s3", "s4"], names=["1"], client_mailboxes=["m1"],
                                         w_open=14, w_claim=12, w_close=8, w_add=4, w_release=4, quiesce=True), N(80, 600))],
-        "C16": [("blur", dict(three, usage=True, blur="rand", w_close=12, w_release=10, w_sweep=5, w_bigjump=3), N(200, 2000)),
+        "C16": [("backstep", dict(three, backstep=True, _impl_only=True, usage=True, blur="rand", w_close=12, w_release=10, w_sweep=4, w_bigjump=2), N(80, 600)),
+                ("blur", dict(three, usage=True, blur="rand", w_close=12, w_release=10, w_sweep=5, w_bigjump=3), N(200, 2000)),
                 ("binds", dict(base, usage=True, blur="rand", w_connect=20, w_reconnect=10, p_badcv=0.3, w_restart=2, w_sweep=3,
                                w_bigjump=3), N(80, 600)),
                 ("float-times", dict(_special="float-times"), N(60, 600)),
@@ -187,7 +202,8 @@ def profiles_for(pid, tier):
                 # (written by the sweep that expires it) must be blurred like every other
                 ("crash-blur", dict(base, usage=True, blur="rand", w_crash=9, w_claim=14, w_allocate=6, w_sweep=5, w_bigjump=4,
                                     quiesce=True), N(80, 600))],
-        "C17": [("lookalike", dict(look, w_malformed=8, w_release=10, w_close=10, w_claim=10, w_open=10), N(80, 600)),
+        "C17": [("bigints", dict(base, big_ints=True, int_ids=True, _impl_only=True, w_add=18, w_open=14, w_close=3), N(60, 400)),
+                ("lookalike", dict(look, w_malformed=8, w_release=10, w_close=10, w_claim=10, w_open=10), N(80, 600)),
                 ("malformed", dict(three, w_malformed=14), N(200, 2000)),
                 ("odd-strings", dict(base, apps=["a", "", "ü"], sides=["s1", "", "s\u0000x"], names=["1", "", "ñ", "²", "①"], w_allocate=8,
                                      client_mailboxes=["m1", ""], w_malformed=8), N(80, 600)),
@@ -251,6 +267,76 @@ def special_history(pid, profile, seed):
             t4 = t3 + 1 + exp + 8
             h.append({"op": "sweep", "now": t4, "fault": False})
             h.append({"op": "sweep", "now": t4 + per, "fault": False})
+        return h, {}
+    if kind == "claim-sweep-boundary":
+        # the last use of a nameplate's mailbox falls INSIDE a second (times are in 1/8 s), and the sweep's cutoff lands in
+        # the same second just before it (the channel is not old) or exactly on / just after it (it is old): only in the
+        # latter case may a later claim be told a new mailbox id
+        exp = info()["expirationTicks"]
+        t = 8000 + r.randrange(0, 80)
+        h = [{"op": "cfg", "rebooted": 8000, "usage": r.random() < 0.5, "allow_list": True, "blur": None}]
+        app, name = r.choice(["a", "b"]), r.choice(["4", "x"])
+        sides = ["s1", "s2"][:r.choice([1, 2])]
+        c = 0
+        last = t
+        for sd in sides:
+            c += 1
+            last = last + r.randrange(1, 30)
+            h += [{"op": "connect", "c": c},
+                  {"op": "recv", "c": c, "t": last, "msg": {"type": "bind", "appid": app, "side": sd}},
+                  {"op": "recv", "c": c, "t": last, "msg": {"type": "claim", "nameplate": name}, "fresh": "mbA"}]
+            if r.random() < 0.5:
+                last += r.randrange(0, 9)
+                h.append({"op": "recv", "c": c, "t": last, "msg": {"type": "open", "mailbox": "mbA"}})
+        if last % 8 == 0:
+            last += r.randrange(1, 8)
+            h.append({"op": "recv", "c": c, "t": last, "msg": {"type": "open", "mailbox": "mbA"}})
+        for cc in range(1, c + 1):
+            h.append({"op": "drop", "c": cc})
+        old = last + r.choice([-(last % 8), -(last % 8) + 1 if last % 8 > 1 else -1, -1, -1, 0, 1])
+        now = old + exp
+        h.append({"op": "sweep", "now": now, "fault": False})
+        if r.random() < 0.5:
+            h.append({"op": "restart", "t": now + 1})
+        for sd in sides + ["s1"]:
+            c += 1
+            h += [{"op": "connect", "c": c},
+                  {"op": "recv", "c": c, "t": now + 2, "msg": {"type": "bind", "appid": app, "side": sd}},
+                  {"op": "recv", "c": c, "t": now + 2, "msg": {"type": "claim", "nameplate": name}, "fresh": "mbB"}]
+        return h, {}
+    if kind == "bulk-apps":
+        # more than a thousand OTHER apps come and go while app "b" has a silent subscriber: its namespace, its
+        # subscription and its channel must be unaffected (registries bounded by a count, eviction, batching)
+        n = profile.get("n", 1010)
+        exp, per = info()["expirationTicks"], info()["periodTicks"]
+        t = 8000
+        h = [{"op": "cfg", "rebooted": t, "usage": r.random() < 0.5, "allow_list": True, "blur": None},
+             {"op": "connect", "c": 1},
+             {"op": "recv", "c": 1, "t": t, "msg": {"type": "bind", "appid": "b", "side": "s1"}},
+             {"op": "recv", "c": 1, "t": t, "msg": {"type": "claim", "nameplate": "1"}, "fresh": "bmb"},
+             {"op": "recv", "c": 1, "t": t, "msg": {"type": "open", "mailbox": "bmb"}},
+             {"op": "recv", "c": 1, "t": t, "msg": {"type": "add", "phase": "p", "body": "00"}}]
+        c = 1
+        for i in range(n):
+            c += 1
+            h += [{"op": "connect", "c": c, "_nodump": True},
+                  {"op": "recv", "c": c, "t": t + 1, "msg": {"type": "bind", "appid": "other%04d" % i, "side": "s1"}, "_nodump": True},
+                  {"op": "recv", "c": c, "t": t + 1, "msg": {"type": "list"}, "_nodump": True},
+                  {"op": "drop", "c": c, "_nodump": True}]
+        h[-1].pop("_nodump", None)
+        c += 1
+        h += [{"op": "connect", "c": c},
+              {"op": "recv", "c": c, "t": t + 2, "msg": {"type": "bind", "appid": "b", "side": "s2"}},
+              {"op": "recv", "c": c, "t": t + 2, "msg": {"type": "open", "mailbox": "bmb"}},
+              {"op": "recv", "c": c, "t": t + 2, "msg": {"type": "add", "phase": "q", "body": "01"}},
+              {"op": "drop", "c": c},
+              {"op": "sweep", "now": t + exp + 8, "fault": False},
+              {"op": "sweep", "now": t + exp + 8 + per, "fault": False}]
+        c += 1
+        h += [{"op": "connect", "c": c},
+              {"op": "recv", "c": c, "t": t + exp + 8 + per + 1, "msg": {"type": "bind", "appid": "b", "side": "s2"}},
+              {"op": "recv", "c": c, "t": t + exp + 8 + per + 1, "msg": {"type": "open", "mailbox": "bmb"}},
+              {"op": "recv", "c": c, "t": t + exp + 8 + per + 1, "msg": {"type": "add", "phase": "r", "body": "02"}}]
         return h, {}
     if kind == "fill":
         # fill 1..9 / 1..99 / 1..999 through the API, with holes, then allocate
@@ -494,6 +580,12 @@ def _run_oracles(pid, tr, meta):
         f += O.check_C01(tr)
     elif pid == "C02":
         f += O.check_C02(tr)
+        # a subscriber that arrives late gets the message by replay: unmodified, like a live delivery
+        for x in O.check_C01(tr):
+            if x.clause == "replay = messages added since the mailbox's last deletion":
+                x.prop = "C02"
+                x.clause = "a message delivered by replay is unmodified (side, phase, body, id as added)"
+                f.append(x)
     elif pid == "C03":
         f += O.check_C03(tr, info()["expirationTicks"])
     elif pid == "C04":
